@@ -13,6 +13,61 @@ open List MdsVerif.Model.Edit MdsVerif.Spec.Subseq
 
 variable {α : Type}
 
+/-! ## the model functions with the regenerated facts (`Gen.Edit`) written out
+
+The proofs below (and `Proofs.LcsKeyed`) unfold `fillRow`, `collect`, `lcsCore?`, `lcsFunc?` only through
+these lemmas; each stops compiling when the corresponding expression of slice/edit.go changes. -/
+section facts
+open MdsVerif.Gen.Edit
+
+theorem fillRow_cons (eq : α → α → Bool) (b : α) (i : Nat) (a : α) (as' : List α) (pi : Seq) (ps : List Seq)
+    (pprev cprev : Seq) :
+    fillRow eq b i (a :: as') (pi :: ps) pprev cprev =
+      (if eq a b then Seq.node (i - 1) (pprev.n + 1) pprev
+       else if cprev.n ≥ pi.n then cprev
+       else pi) ::
+      fillRow eq b (i + 1) as' ps pi
+        (if eq a b then Seq.node (i - 1) (pprev.n + 1) pprev
+         else if cprev.n ≥ pi.n then cprev
+         else pi) := by
+  simp only [fillRow, matchI, matchCount, matchPrev, tieTest, tieThen, tieElse, pickCell, decide_eq_true_eq]
+
+theorem fillRow_nil_left (eq : α → α → Bool) (b : α) (i : Nat) (ps : List Seq) (pprev cprev : Seq) :
+    fillRow eq b i [] ps pprev cprev = [] := by
+  simp [fillRow]
+
+theorem fillRow_nil_right (eq : α → α → Bool) (b : α) (i : Nat) (as' : List α) (pprev cprev : Seq) :
+    fillRow eq b i as' [] pprev cprev = [] := by
+  cases as' <;> simp [fillRow]
+
+theorem collect_zero (as : List α) : collect as .zero = some [] := by
+  simp [collect, walkGoes]
+
+theorem collect_node (as : List α) (i n : Nat) (prev : Seq) :
+    collect as (.node i n prev) =
+      if n > 0 then (do let a ← as[i]?; let r ← collect as prev; pure (a :: r)) else some [] := by
+  simp only [collect, walkGoes, decide_eq_true_eq, Int.natCast_pos, gt_iff_lt]
+
+theorem lcsCore?_def (eq : α → α → Bool) (as bs : List α) :
+    lcsCore? eq as bs =
+      (do let last ← (lcsRows eq as bs (List.replicate (as.length + 1) Seq.zero,
+                        List.replicate (as.length + 1) Seq.zero)).2[as.length]?
+          let out ← collect as last
+          pure out.reverse) := by
+  simp only [lcsCore?, pBufLen, cBufLen, lastIdx, reverses, if_true]
+
+theorem lcsFunc?_def (eq : α → α → Bool) (as bs : List α) :
+    lcsFunc? eq as bs =
+      if as.length = 0 ∨ bs.length = 0 then some []
+      else if bs.length < as.length then lcsCore? eq bs as
+      else lcsCore? eq as bs := by
+  simp only [lcsFunc?, lcsNil, lcsSwaps, Bool.or_eq_true, decide_eq_true_eq, Int.natCast_eq_zero, Int.ofNat_lt]
+
+theorem lcsIsNil_def (as bs : List α) : lcsIsNil as bs = decide (as.length = 0 ∨ bs.length = 0) := by
+  simp [lcsIsNil, lcsNil]
+
+end facts
+
 /-! ## the reference optimum -/
 section spec
 variable [DecidableEq α]
@@ -91,8 +146,8 @@ theorem Rep.n_eq {as : List α} {c : Seq} {l : List α} (h : Rep as c l) : c.n =
 theorem Rep.collect_eq {as : List α} {c : Seq} {l : List α} (h : Rep as c l) :
     collect as c = some l := by
   induction h with
-  | zero => simp [collect]
-  | node ha _ ih => simp [collect, ha, ih]
+  | zero => simp [collect_zero]
+  | node ha _ ih => simp [collect_node, ha, ih]
 
 theorem Rep.eq_zero {as : List α} {c : Seq} (h : Rep as c []) : c = .zero := by
   cases h; rfl
@@ -131,7 +186,7 @@ theorem fillRow_ok (heq : ∀ a b, eq a b = true ↔ a = b) (as : List α) (b : 
         (fillRow eq b (pre.length + 1) as' ps pprev cprev)[k] := by
   intro as'
   induction as' with
-  | nil => intro ps pre pprev cprev _ hl _ _ _; cases ps <;> simp [fillRow] at *
+  | nil => intro ps pre pprev cprev _ hl _ _ _; cases ps <;> simp [fillRow_nil_left] at *
   | cons a as' ih =>
     intro ps pre pprev cprev has hl hpp hcp hps
     match ps, hl with
@@ -176,13 +231,13 @@ theorem fillRow_ok (heq : ∀ a b, eq a b = true ↔ a = b) (as : List α) (b : 
     have hlen1 : (pre ++ [a]).length + 1 = pre.length + 1 + 1 := by simp
     rw [hlen1] at hrec
     constructor
-    · simp [fillRow, hrec.1]
+    · simp [fillRow_cons, hrec.1]
     · intro k hk
       cases k with
-      | zero => simpa [fillRow] using hci
+      | zero => simpa [fillRow_cons] using hci
       | succ k =>
-        have := hrec.2 k (by simp [fillRow] at hk; omega)
-        simpa [fillRow, List.take_succ_cons, List.reverse_cons, List.append_assoc] using this
+        have := hrec.2 k (by simp [fillRow_cons] at hk; omega)
+        simpa [fillRow_cons, List.take_succ_cons, List.reverse_cons, List.append_assoc] using this
 
 /-- invariant of the row loop: `c` is the row for `rb`; the stale buffer `p` starts with the sentinel -/
 def BufOk (as rb : List α) (pc : List Seq × List Seq) : Prop :=
@@ -246,8 +301,7 @@ theorem lcsCore_spec (heq : ∀ a b, eq a b = true ↔ a = b) (as bs : List α) 
   obtain ⟨l, hrep, c1, c2, c3⟩ := hcells as.length (by omega)
   simp only [List.take_length] at c1 c2 c3
   refine ⟨l.reverse, ?_, ?_, ?_, ?_⟩
-  · unfold lcsCore?
-    simp only
+  · rw [lcsCore?_def]
     rw [List.getElem?_eq_getElem (by omega)]
     simp [hrep.collect_eq]
   · simpa using (List.reverse_sublist.mpr c1)
@@ -263,7 +317,7 @@ common subsequence exceeds. -/
 theorem lcsFunc_spec (heq : ∀ a b, eq a b = true ↔ a = b) (as bs : List α) :
     ∃ r, lcsFunc? eq as bs = some r ∧ r <+ as ∧ r <+ bs ∧
       ∀ s, s <+ as → s <+ bs → s.length ≤ r.length := by
-  unfold lcsFunc?
+  rw [lcsFunc?_def]
   by_cases h0 : as.length = 0 ∨ bs.length = 0
   · simp only [if_pos h0]
     refine ⟨[], rfl, nil_sublist _, nil_sublist _, ?_⟩
